@@ -99,10 +99,20 @@ struct Ts<'db> {
     v: PV,
 }
 
+/// interned field with a constant hash: every value lands in one shard, so stale slots are
+/// actually reclaimed within a history (salsa's own test trick)
+#[derive(Clone, Copy, Debug, PartialEq, Eq, salsa::SalsaValue)]
+struct CH(u32);
+impl std::hash::Hash for CH {
+    fn hash<H: std::hash::Hasher>(&self, state: &mut H) {
+        state.write_i16(0);
+    }
+}
+
 #[salsa::interned(revisions = 2)]
 struct Sym<'db> {
     #[returns(copy)]
-    f: u32,
+    f: CH,
 }
 
 #[salsa::accumulator]
@@ -209,11 +219,12 @@ fn interp<'db>(db: &'db dyn PDb, e: &E, cx: Cx) -> V<'db> {
         }
         E::Intern(a) => {
             let h = interp(db, a, cx);
-            (h.0, None, Some(Sym::new(db, h.0 % 8)))
+            // the interned value also depends on input 0 so that values come and go over a history
+            (h.0, None, Some(Sym::new(db, CH((h.0 + 4 * read_in(db, 0)) % 16))))
         }
         E::SymF(a) => {
             let h = interp(db, a, cx);
-            n(h.2.map(|s| s.f(db)).unwrap_or(h.0))
+            n(h.2.map(|s| s.f(db).0).unwrap_or(h.0))
         }
         E::OnSym(a) => {
             let h = interp(db, a, cx);
@@ -278,7 +289,7 @@ fn spec<'db>(db: &'db dyn PDb, t: Ts<'db>) -> u32 {
 #[salsa::tracked(returns(copy))]
 fn on_sym<'db>(db: &'db dyn PDb, s: Sym<'db>) -> u32 {
     tick_body(db);
-    let f = s.f(db);
+    let f = s.f(db).0;
     interp(db, &db.env().prog.on_sym, Cx::Arg(f)).0
 }
 #[salsa::tracked(returns(copy))]
@@ -338,6 +349,8 @@ struct Runner {
     key_of: HashMap<String, usize>,
     /// canonical ordinals for struct-keyed functions: id debug string → first-seen ordinal
     canon: HashMap<String, usize>,
+    /// salsa `Id` (Debug form, with generation) of the tracked struct returned by the last `get`
+    last_tsid: std::cell::RefCell<String>,
 }
 
 fn panic_class(p: &(dyn std::any::Any + Send)) -> String {
@@ -422,7 +435,7 @@ impl Runner {
             use salsa::plumbing::AsId;
             key_of.insert(format!("{:?}", k.as_id()), i);
         }
-        Runner { db, events, ins, keys, key_of, canon: HashMap::new() }
+        Runner { db, events, ins, keys, key_of, canon: HashMap::new(), last_tsid: Default::default() }
     }
 
     /// canonical event names: `X<q>` for node functions, `Xots#n` … for struct-keyed ones
@@ -463,9 +476,11 @@ impl Runner {
         let mut s = format!("v={}", v.0);
         if let Some(t) = v.1 {
             write!(s, " ts={}:{}", t.k(&self.db), t.v(&self.db).0).unwrap();
+            use salsa::plumbing::AsId;
+            *self.last_tsid.borrow_mut() = format!("{:?}", t.as_id());
         }
         if let Some(y) = v.2 {
-            write!(s, " sym={}", y.f(&self.db)).unwrap();
+            write!(s, " sym={}", y.f(&self.db).0).unwrap();
         }
         s
     }
@@ -599,7 +614,7 @@ impl Runner {
 }
 
 /// Runs every case of an op file; one output line per input line (`ok` for header lines).
-fn run_file(text: &str, out: &mut dyn std::io::Write) {
+fn run_file(text: &str, out: &mut dyn std::io::Write, ids: &mut dyn std::io::Write) {
     // header lines belong to the case that follows; we need whole cases, so parse all first
     let cases = match Case::parse_all(text) {
         Ok(c) => c,
@@ -612,11 +627,15 @@ fn run_file(text: &str, out: &mut dyn std::io::Write) {
         let header = case.to_lines().len() - case.ops.len();
         for _ in 0..header {
             writeln!(out, "ok").unwrap();
+            writeln!(ids, "-").unwrap();
         }
         let mut r = Runner::new(case);
         for op in &case.ops {
+            r.last_tsid.borrow_mut().clear();
             let line = r.step(op);
             writeln!(out, "{}", line).unwrap();
+            let id = r.last_tsid.borrow().clone();
+            writeln!(ids, "{}", if id.is_empty() { "-" } else { &id }).unwrap();
         }
     }
 }
@@ -643,7 +662,8 @@ fn fmt_rv(v: &RV) -> String {
     s
 }
 
-fn oracle_case(case: &Case, obs: &[&str], st: &mut OracleStats, case_no: usize, line0: usize) {
+fn oracle_case(case: &Case, obs: &[&str], ids: &[&str], st: &mut OracleStats, case_no: usize, line0: usize) {
+    let mut last_id: HashMap<(usize, u32, u32), String> = HashMap::new();
     let mut inputs: Vec<u32> = case.init.iter().map(|x| x.0).collect();
     let mut durs: Vec<u8> = case.init.iter().map(|x| x.1).collect();
     let mut cells = vec![0u32; case.prog.ncells];
@@ -677,6 +697,14 @@ fn oracle_case(case: &Case, obs: &[&str], st: &mut OracleStats, case_no: usize, 
         }
         if evs.iter().any(|e| e.starts_with('V') || e.starts_with('D') || e.starts_with('R')) {
             nontrivial = true;
+        }
+        if !cyclic && matches!(op, Op::Acc(_)) {
+            for e in &evs {
+                if let Some(x) = e.strip_prefix('X').and_then(|r| r.parse::<usize>().ok()) {
+                    let live = Ref::new(Env { prog: &case.prog, inputs: &inputs, cells: &cells }).created_by(x);
+                    last_id.retain(|k, _| k.0 != x || live.contains(&(k.1, k.2)));
+                }
+            }
         }
         match op {
             Op::Inject(_, k) => {
@@ -782,7 +810,30 @@ fn oracle_case(case: &Case, obs: &[&str], st: &mut OracleStats, case_no: usize, 
                         }
                     }
                 } else {
-                    let want = fmt_rv(&Ref::new(env).node(*q));
+                    let wantv = Ref::new(Env { prog: &case.prog, inputs: &inputs, cells: &cells }).node(*q);
+                    // C06 monitor: a creator that re-executed (X<q>) and no longer creates an
+                    // identity forgets it; an identity that is still created keeps its salsa id
+                    for e in &evs {
+                        if let Some(x) = e.strip_prefix('X').and_then(|r| r.parse::<usize>().ok()) {
+                            let live = Ref::new(Env { prog: &case.prog, inputs: &inputs, cells: &cells }).created_by(x);
+                            last_id.retain(|k, _| k.0 != x || live.contains(&(k.1, k.2)));
+                        }
+                    }
+                    if let (Some(t), Some(idl)) = (&wantv.ts, ids.get(i)) {
+                        if main.starts_with("v=") && *idl != "-" {
+                            let key = (t.creator, t.k, t.occ);
+                            if let Some(old) = last_id.get(&key) {
+                                if old != idl {
+                                    fail(st, i, format!("key=struct-id-changed struct (creator {}, identity {}, occurrence {}) was recreated with the same identity but its id changed from {} to {}", t.creator, t.k, t.occ, old, idl));
+                                } else {
+                                    *st.hist.entry("struct-id-kept".into()).or_default() += 1;
+                                }
+                            }
+                            last_id.insert(key, idl.to_string());
+                        }
+                    }
+                    let want = fmt_rv(&wantv);
+                    let _ = env;
                     if main != want {
                         if main.starts_with("panic:") {
                             fail(st, i, format!("key=unexpected-panic-{} got `{}` want `{}`", panic_slug(main), main, want));
@@ -864,19 +915,25 @@ fn main() {
             let text = std::fs::read_to_string(args.get("--ops").expect("--ops")).unwrap();
             let f = std::fs::File::create(args.get("--out").expect("--out")).unwrap();
             let mut w = std::io::BufWriter::new(f);
-            run_file(&text, &mut w);
+            // side channel (not part of the line protocol): salsa ids of returned tracked structs
+            let g = std::fs::File::create(format!("{}.ids", args.get("--out").unwrap())).unwrap();
+            let mut wi = std::io::BufWriter::new(g);
+            run_file(&text, &mut w, &mut wi);
         }
         "oracle" => {
             let text = std::fs::read_to_string(args.get("--ops").expect("--ops")).unwrap();
             let imp = std::fs::read_to_string(args.get("--impl").expect("--impl")).unwrap();
             let cases = Case::parse_all(&text).expect("parse");
             let obs: Vec<&str> = imp.lines().collect();
+            let idtext = std::fs::read_to_string(format!("{}.ids", args.get("--impl").unwrap())).unwrap_or_default();
+            let idv: Vec<&str> = idtext.lines().collect();
             let mut st = OracleStats { cases: 0, gets: 0, nontrivial_cases: 0, failures: vec![], hist: Default::default() };
             let mut pos = 0;
             for (n, case) in cases.iter().enumerate() {
                 let header = case.to_lines().len() - case.ops.len();
                 pos += header;
-                oracle_case(case, &obs[pos..pos + case.ops.len()], &mut st, n, pos);
+                let idslice: &[&str] = if idv.len() >= pos + case.ops.len() { &idv[pos..pos + case.ops.len()] } else { &[] };
+                oracle_case(case, &obs[pos..pos + case.ops.len()], idslice, &mut st, n, pos);
                 pos += case.ops.len();
             }
             for f in st.failures.iter().filter(|f| !f.is_empty()).take(20) {
